@@ -18,6 +18,7 @@ RULE = ('case = one accepted generated document (both attribution modes, half of
         'nested, ordered, disjoint, every non-trivia token owned exactly once, every leaf a member, claimed comments owned once and '
         'unclaimed ones not at all) after a step, or on a node returned by pop() (which must be the whole of its own store and print '
         'the text it had). Non-trivial = the step changed the store; distinct = hash(text, op-log prefix).')
+RULE += (' Also (rounds 8-11): in-place arithmetic with free right operands that need parentheses; a released comment claimed by a model created next to it afterwards (new_neighbour_claims_ops); nodes returned by mapping calls (pop, popitem) are checked like popped list elements; unreadable state while building the next operation is reported.')
 ASSUMPTIONS = ['trivia = Whitespace, Newline, Comma, unclaimed BlockComment (calibrated on parsed documents)',
                'a step that raises ends the history (what a refused call leaves behind is C19\'s question)']
 
